@@ -170,6 +170,7 @@ impl World {
 					key_id,
 					coinbase: false,
 					height: 0,
+					leaf: 0,
 				};
 				self.wallet.known.insert(ckey(&fake.commit), fake.clone());
 				let tx = self.simple_spend(&fake, None)?;
